@@ -101,6 +101,27 @@ def run(ctx: Any, prog: Program) -> None:
                 verdict, why = (True if verdict is None else verdict), 'os.path.commonpath'
         if isinstance(n, ast.Call) and isinstance(n.func, ast.Attribute) and n.func.attr == 'is_relative_to':
             verdict, why = (True if verdict is None else verdict), 'Path.is_relative_to'
+    # relpath idiom: the path expressed relative to the root climbs out iff it IS '..' or starts with '../'
+    rel_calls = [n for n in ast.walk(test) if isinstance(n, ast.Call) and dotted(n.func) == 'os.path.relpath' and len(n.args) == 2 and 'self.path' in ast.unparse(n.args[1])]
+    if rel_calls and verdict is None:
+        PARDIR = ("os.pardir", "'..'")
+        sw = [n for n in ast.walk(test) if isinstance(n, ast.Call) and isinstance(n.func, ast.Attribute) and n.func.attr == 'startswith' and n.args
+              and any(isinstance(x, ast.Call) and dotted(x.func) == 'os.path.relpath' for x in ast.walk(n.func.value))]
+        eqs = [n for n in ast.walk(test) if isinstance(n, ast.Compare) and len(n.ops) == 1 and isinstance(n.ops[0], (ast.Eq, ast.In)) and any(isinstance(x, ast.Call) and dotted(x.func) == 'os.path.relpath' for x in ast.walk(n.left))
+               and any(p_ in ast.unparse(n.comparators[0]) for p_ in PARDIR)]
+        for n in sw:
+            a = ast.unparse(n.args[0])
+            whole_component = a in ("os.pardir + os.sep", "'../'", "os.pardir + '/'", "'..' + os.sep")
+            bare = a in PARDIR
+            if bare:
+                verdict, why = True, 'relpath(...).startswith(os.pardir) (conservative: also refuses names beginning with two dots)'
+            elif whole_component:
+                if eqs:
+                    verdict, why = True, "relpath(...) == os.pardir or .startswith(os.pardir + os.sep)"
+                else:
+                    verdict = False
+                    why = (f'`{ast.unparse(n)[:80]}` only refuses results that continue below the parent: the relative form of the parent directory itself is exactly ".." '
+                           '(no separator), so walking ".." lists the files next to the root')
     if verdict is None:
         raise AnalysisError(f'_resolve_path: containment test `{ast.unparse(test)}` is not one of the enumerated idioms')
     ctx.check('C18.S1', verdict, fs, guards[0], f'containment test `{ast.unparse(test)[:120]}`: {why}', func='RawFileSystem._resolve_path', text='containment test')
@@ -161,6 +182,8 @@ def run(ctx: Any, prog: Program) -> None:
 
 
 MUTANTS = [
+    {'id': 'relpath_misses_exact_parent', 'file': 'filesys.py', 'find': "        if self.constrain_path and abs_path != self.path and not abs_path.startswith(os.path.join(self.path, '')):", 'replace': "        if self.constrain_path and os.path.relpath(abs_path, self.path).startswith(os.pardir + os.sep):", 'expect': 'C18.S1'},
+    {'id': 'relpath_sound_form', 'file': 'filesys.py', 'find': "        if self.constrain_path and abs_path != self.path and not abs_path.startswith(os.path.join(self.path, '')):", 'replace': "        if self.constrain_path and (os.path.relpath(abs_path, self.path) == os.pardir or os.path.relpath(abs_path, self.path).startswith(os.pardir + os.sep)):", 'expect': None},
     {'id': 'bare_prefix_test', 'file': 'filesys.py', 'find': "if self.constrain_path and abs_path != self.path and not abs_path.startswith(os.path.join(self.path, '')):", 'replace': "if self.constrain_path and not abs_path.startswith(self.path):", 'expect': 'C18.S1'},
     {'id': 'commonprefix', 'file': 'filesys.py', 'find': "if self.constrain_path and abs_path != self.path and not abs_path.startswith(os.path.join(self.path, '')):", 'replace': "if self.constrain_path and os.path.commonprefix([abs_path, self.path]) != self.path:", 'expect': 'C18.S1'},
     {'id': 'commonpath_ok', 'file': 'filesys.py', 'find': "if self.constrain_path and abs_path != self.path and not abs_path.startswith(os.path.join(self.path, '')):", 'replace': "if self.constrain_path and os.path.commonpath([abs_path, self.path]) != self.path:", 'expect': None, 'note': 'negative control: component-wise containment'},
